@@ -42,10 +42,28 @@ NoFault == [mode |-> "none", ks |-> {}, kinds |-> {}, nodes |-> {}]
 Once(K) == [mode |-> "once", ks |-> K, kinds |-> {}, nodes |-> {}]
 Persist(K, S) == [mode |-> "persist", ks |-> {}, kinds |-> K, nodes |-> S]
 
+\* mode "act" (re-entrant hooks, MC_OpsRe): the hook invocation with ordinal ak does not raise but itself makes the public
+\* call `am.parent = av` -- hooks are ordinary methods and may use the library (docs: "replace" or "evict" semantics).
+Acting(k, m, w) == [mode |-> "act", ks |-> {}, kinds |-> {}, nodes |-> {}, ak |-> k, am |-> m, av |-> w]
+
 Raises(fp, kind, n, hc) ==
   CASE fp.mode = "none"    -> FALSE
     [] fp.mode = "once"    -> hc \in fp.ks
     [] fp.mode = "persist" -> kind \in fp.kinds /\ n \in fp.nodes
+    [] fp.mode = "act"     -> FALSE
+
+NestedFrame(n, v) ==     \* = FrSP(n, v), defined below
+  [pc |-> "sp_entry", n |-> n, v |-> v, old |-> Nil, xs |-> <<>>, olds |-> <<>>, i |-> 0,
+   saved |-> Nil, savedsrc |-> 0, bad |-> FALSE]
+NoNest == [lo |-> 0, hi |-> 0, exc |-> Nil, par |-> <<>>, ch |-> <<>>]
+RECURSIVE Run(_)
+\* The call made by an acting hook runs to completion on top of the frames of the interrupted call (its hook events are
+\* appended to the same log, its exception -- if any -- propagates out of the hook into the interrupted call);
+\* `nest` remembers which log entries belong to it and what it left behind.
+Nested(c, fr) ==
+  LET sub == Run([c EXCEPT !.stk = <<fr>>]) IN
+  [sub EXCEPT !.stk = c.stk,
+              !.nest = [lo |-> c.hc + 1, hi |-> sub.hc, exc |-> sub.exc, par |-> sub.par, ch |-> sub.ch]]
 
 \* Invoke a hook: log the event with a snapshot of the whole forest (what the hook can
 \* observe), count it, and set the exception in flight iff the plan says it raises.
@@ -53,9 +71,10 @@ Hook(c, kind, n, arg) ==
   LET hc == c.hc + 1
       r  == Raises(c.fp, kind, n, hc)
       ev == [h |-> kind, n |-> n, a |-> arg, par |-> c.par, ch |-> c.ch, r |-> r]
-  IN [c EXCEPT !.hc = hc, !.log = Append(@, ev),
-               !.exc = IF r THEN "HookFault" ELSE @,
-               !.src = IF r THEN hc ELSE @]
+      c1 == [c EXCEPT !.hc = hc, !.log = Append(@, ev),
+                      !.exc = IF r THEN "HookFault" ELSE @,
+                      !.src = IF r THEN hc ELSE @]
+  IN IF c.fp.mode = "act" /\ c.fp.ak = hc THEN Nested(c1, NestedFrame(c.fp.am, c.fp.av)) ELSE c1
 
 Mark(c, m) == [c EXCEPT !.marks = @ \cup {m}]
 Top(c) == c.stk[Len(c.stk)]
@@ -113,7 +132,9 @@ Step(c) ==
          LET kids == c.ch[f.n]
              c2 == Hook(c, "pre_detach_children", f.n, kids) IN
          IF c2.exc # Nil THEN Pop(c2)
-         ELSE SetTop(c2, [f EXCEPT !.pc = "dc_loop", !.xs = kids, !.i = 1])
+         \* `for child in self.children`: the list is read again after the hook (an acting hook may have changed it);
+         \* the hooks get the list read before
+         ELSE SetTop(c2, [f EXCEPT !.pc = "dc_loop", !.xs = c2.ch[f.n], !.olds = kids, !.i = 1])
     [] f.pc = "dc_loop" ->
          IF c.exc # Nil THEN Pop(IF f.i > 2 THEN Mark(c, "B") ELSE c)
          ELSE IF f.i > Len(f.xs) THEN Goto(c, "dc_post")
@@ -121,7 +142,7 @@ Step(c) ==
     [] f.pc = "dc_post" ->
          IF c.exc # Nil THEN Pop(c)
          ELSE IF c.asrt /\ Len(c.ch[f.n]) # 0 THEN Raise(c, "AssertionError")
-         ELSE Pop(Hook(c, "post_detach_children", f.n, f.xs))
+         ELSE Pop(Hook(c, "post_detach_children", f.n, f.olds))
     \* ---- n.children = xs                                       [243-260]
     [] f.pc = "sc_entry" ->
          IF f.bad THEN Raise(c, "TypeError")                     \* tuple(children)
@@ -141,7 +162,7 @@ Step(c) ==
          IF c.exc # Nil THEN Goto(c, "sc_handler")
          ELSE LET c2 == Hook(c, "post_attach_children", f.n, f.xs) IN
               IF c2.exc # Nil THEN Goto(c2, "sc_handler")
-              ELSE IF c.asrt /\ Len(c.ch[f.n]) # Len(f.xs) THEN Goto([c2 EXCEPT !.exc = "AssertionError", !.src = 0], "sc_handler")
+              ELSE IF c.asrt /\ Len(c2.ch[f.n]) # Len(f.xs) THEN Goto([c2 EXCEPT !.exc = "AssertionError", !.src = 0], "sc_handler")
               ELSE Pop(c2)
     [] f.pc = "sc_handler" ->                                   \* except Exception: self.children = old_children
          LET stolen == \E j \in 1..Len(f.xs): j < f.i /\ c.par0[f.xs[j]] \notin {Nil, f.n}
@@ -168,12 +189,11 @@ Step(c) ==
 AllPcs == {"sp_entry", "sp_pre_detach", "sp_do_detach", "sp_post_detach", "sp_pre_attach", "sp_do_attach", "sp_post_attach",
            "dc_entry", "dc_loop", "dc_post", "sc_entry", "sc_after_del", "sc_loop", "sc_post", "sc_handler", "sc_reraise",
            "ct_entry", "ct_children", "ct_done"}
-RECURSIVE Run(_)
 Run(c) == IF c.stk = <<>> THEN c ELSE Run([Step(c) EXCEPT !.pcs = c.pcs \cup {Top(c).pc}])
 
 Begin(par, ch, fr, fp, strict, asrt) ==
   [par |-> par, ch |-> ch, stk |-> <<fr>>, exc |-> Nil, src |-> 0, log |-> <<>>, hc |-> 0,
-   fp |-> fp, marks |-> {}, par0 |-> par, strict |-> strict, asrt |-> asrt, pcs |-> {}]
+   fp |-> fp, marks |-> {}, par0 |-> par, strict |-> strict, asrt |-> asrt, pcs |-> {}, nest |-> NoNest]
 
 (***************************************************************************)
 (* Forest well-formedness (property C01), on explicit arguments.           *)
